@@ -341,11 +341,12 @@ SigLen(e) ==
 OutcomeRule(e, hard, soft, A) ==
   LET ok == e.out.kind = "ok"  err == e.out.kind = "err" IN
   <<Chk("C03", "call_panics", e.out.kind # "panic"),
-    Chk("C07", "overflow_not_refused", (ok /\ A.overflow) => FALSE),
-    Chk("C09", "oversize_not_refused", (ok /\ A.sizeErr) => FALSE),
-    Chk("C05", "unsupported_id_not_refused", (ok /\ A.idErr) => FALSE),
-    Chk("C05", "illtyped_value_not_refused", (ok /\ A.typedErr) => FALSE),
-    Chk("C05", "signing_failure_swallowed", (ok /\ e.fault = 1) => FALSE),
+    \* a failure cause that applies makes the call return an error VALUE (a success and a panic are both violations)
+    Chk("C07", "overflow_not_refused", A.overflow => err),
+    Chk("C09", "oversize_not_refused", A.sizeErr => err),
+    Chk("C05", "unsupported_id_not_refused", A.idErr => err),
+    Chk("C05", "illtyped_value_not_refused", A.typedErr => err),
+    Chk("C05", "signing_failure_swallowed", (e.fault = 1) => err),
     Chk("C08", "succeeded_although_a_failure_cause_applies", ok => hard = {}),
     Chk("C07", "refused_for_overflow_below_the_maximum",
         (err /\ e.out.err = "SequenceNumberTooHigh") => "SequenceNumberTooHigh" \in (hard \cup soft)),
